@@ -1,11 +1,34 @@
 //! Assertion / note helpers shared by all harnesses.
 
+/// Property the harness crate is being built for (`EGV_FOCUS=Cxx`, set by the driver for the Kani
+/// build and for the native replay build).
+pub const FOCUS: Option<&str> = option_env!("EGV_FOCUS");
+
+/// A harness may carry labels of several properties (`"C01.…"`, `"C06.…"`). A failing Rust assertion
+/// ends the path (Kani: assert + assume), so an earlier failing label of ANOTHER property would hide
+/// the focus property's own label for the same input. Only the labels of the property being checked
+/// are asserted; labels without a `Cxx.` prefix (twins, self-tests) always are.
+pub const fn focused(label: &str) -> bool {
+    match FOCUS {
+        None => true,
+        Some(f) => {
+            let (l, f) = (label.as_bytes(), f.as_bytes());
+            if l.len() < 4 || l[0] != b'C' || l[3] != b'.' || f.len() != 3 {
+                return true;
+            }
+            l[0] == f[0] && l[1] == f[1] && l[2] == f[2]
+        }
+    }
+}
+
 /// Labelled assertion. The label (e.g. `"C11.roundtrip"`) is what the driver keys evidence,
 /// violations and known findings on.
 #[macro_export]
 macro_rules! check {
     ($cond:expr, $label:literal) => {
-        assert!($cond, $label)
+        if $crate::macros::focused($label) {
+            assert!($cond, $label)
+        }
     };
 }
 
@@ -15,10 +38,12 @@ macro_rules! check {
 #[macro_export]
 macro_rules! check_kf {
     ($cond:expr, $label:literal, $kf:literal, $region:expr) => {
-        if $region {
-            assert!($cond, concat!($label, "@", $kf))
-        } else {
-            assert!($cond, $label)
+        if $crate::macros::focused($label) {
+            if $region {
+                assert!($cond, concat!($label, "@", $kf))
+            } else {
+                assert!($cond, $label)
+            }
         }
     };
 }
